@@ -12,6 +12,9 @@
    queue drained.  controler.Stop() runs under a watchdog derived from the configuration; afterwards the WARC
    directory is listed and parsed record by record.
 3. TLC (C03_Mon) judges each run; a process that dies is a violation by itself.
+4. TLC (TraceC03) binds Stop.tla to the same runs: the recorded steps of stopPipeline come in the model's order, a
+   stage's Stop returns only when the model's AllExited(stage) holds for the workers that were started, no worker
+   leaves before the stop request, and the pause / wake events fit the model's worker states (SPEC-DRIFT otherwise).
 """
 import os
 import subprocess
@@ -85,6 +88,11 @@ def run(ctx):
             ctx.report("the crawler process died (%s): %s" % (name, " ".join(tail.split())[:400]), replay_src=t, tag="crash",
                        key="process died " + name.split(" moment=")[0])
             continue
+        impl = ctx.validate("TraceC03", "C03_trace.cfg", t, name="impl-%d" % traces.index(item))
+        if impl["hwm"] < impl["total"]:
+            ctx.note_drift("%s: event %d is not explained by Stop.tla" % (name, impl["hwm"] + 1), t)
+        for dft in impl["drift"][:3]:
+            ctx.note_drift("%s: %s (event %d)" % (name, dft["why"], dft["l"]), t)
         mon = ctx.validate("C03_Mon", "C03_mon.cfg", t, name="mon-%d" % traces.index(item))
         for v in mon["viols"]:
             ctx.report("%s (%s)" % (v["why"], name), replay_src=t, tag="run", key=v["why"])
